@@ -73,13 +73,17 @@ ODD_THOROUGH = tuple(w for w in range(1, 64) if w not in NATIVE)
 BN_QUICK = (65, 96, 127, 128, 129, 192, 255, 256)
 BN_THOROUGH = (65, 66, 80, 95, 96, 97, 127, 128, 129, 160, 191, 192, 193, 224, 255, 256)
 RCL = (9, 17, 33)
-NESTED_QUICK = (8, 13, 32, 128)
+NESTED_QUICK = (8, 13, 32, 64, 128)
 NESTED_THOROUGH = (3, 8, 13, 16, 32, 33, 64, 65, 128, 256)
 PROBE_ODD = (13,)
 NSHARDS_QUICK = 16
-NSHARDS_THOROUGH = 64
+NSHARDS_THOROUGH = 32
 MAX_PER_SIG = 2
-CASE_CPU_MS = 10           # CPU-time bound of one evaluation (the slowest helper, bignum_smod, needs < 0.1 ms)
+TICK_MS = 10               # period of the CPU-time tick; two ticks inside one evaluation make a *suspected* run-away loop
+CONFIRM_TICKS = 30         # a suspected case is run again and must survive that many ticks (0.3 s of CPU; the slowest
+                           # helper, bignum_smod, needs < 0.1 ms) to be reported as a time-out
+MAX_CONFIRMED = 1          # confirmed time-outs per function; later suspected ones are not confirmed and not judged (counted)
+MAX_FAULTS = 4              # memory faults per function (each costs a fresh process); the remaining cases are then not run (counted)
 MAX_TIMEOUTS = 64            # after that many in one function its remaining cases are not run (counted)
 
 NARY = ["+", "*", "&", "|", "^"]
@@ -487,6 +491,7 @@ static sigjmp_buf c04_env;
 static volatile sig_atomic_t c04_armed;
 static volatile int c04_idx;
 static volatile long c04_seq, c04_seen;
+static volatile int c04_ticks, c04_need = 2;
 static FILE *c04_res;
 
 void c04_exit(int code)
@@ -498,10 +503,10 @@ void c04_exit(int code)
 static void c04_sig(int signo)
 {
 	if (signo == SIGVTALRM) {
-		/* periodic CPU-time tick: the second one inside the same protected call ends it */
+		/* periodic CPU-time tick: the c04_need-th one inside the same protected call ends it */
 		if (!c04_armed) { c04_seen = -1; return; }
-		if (c04_seen == c04_seq) siglongjmp(c04_env, signo);
-		c04_seen = c04_seq;
+		if (c04_seen != c04_seq) { c04_seen = c04_seq; c04_ticks = 0; }
+		if (++c04_ticks >= c04_need) siglongjmp(c04_env, signo);
 		return;
 	}
 	if (c04_armed) siglongjmp(c04_env, signo);
@@ -539,11 +544,15 @@ struct c04_desc {
 """
 
 DRIVER_MAIN = r"""
-static void c04_run(const struct c04_desc *d)
+/* shared with the supervising parent */
+struct c04_shared { size_t func; size_t first; int idx; int faults; };
+static volatile struct c04_shared *c04_sh;
+
+static void c04_run(const struct c04_desc *d, int start)
 {
 	static uint64_t in[12], out[4];
 	static size_t pend;
-	static int i0, i1, i2, idx, timeouts, n0, n1, n2, rc;
+	static int i0, i1, i2, idx, timeouts, confirmed, attempt, n0, n1, n2, rc, from;
 	FILE *res = c04_res;
 
 	n0 = d->nops > 0 ? d->n0 : 1;
@@ -551,15 +560,21 @@ static void c04_run(const struct c04_desc *d)
 	n2 = d->nops > 2 ? d->n2 : 1;
 	idx = 0;
 	timeouts = 0;
+	confirmed = 0;
+	from = start;
 	for (i0 = 0; i0 < n0; i0++) for (i1 = 0; i1 < n1; i1++) for (i2 = 0; i2 < n2; i2++, idx++) {
+		if (idx < from) continue;
 		if (d->skip && d->skip[idx]) continue;
-		if (timeouts >= C04_MAX_TIMEOUTS) { fprintf(res, "%d !N\n", idx); continue; }
+		if (timeouts >= C04_MAX_TIMEOUTS || c04_sh->faults >= C04_MAX_FAULTS) { fprintf(res, "%d !N\n", idx); continue; }
 		memset(in, 0, sizeof(in));
 		if (d->nops > 0) memcpy(in, d->l0[i0], 32);
 		if (d->nops > 1) memcpy(in + 4, d->l1[i1], 32);
 		if (d->nops > 2) memcpy(in + 8, d->l2[i2], 32);
-		out[0] = out[1] = out[2] = out[3] = 0;
 		c04_idx = idx;
+		attempt = 0;
+again:
+		out[0] = out[1] = out[2] = out[3] = 0;
+		c04_need = attempt ? C04_CONFIRM_TICKS : 2;
 		c04_seq++;
 		rc = sigsetjmp(c04_env, 0);
 		if (rc == 0) {
@@ -573,68 +588,101 @@ static void c04_run(const struct c04_desc *d)
 				fprintf(res, "%d =%llx", idx, (unsigned long long)out[0]);
 		} else {
 			c04_armed = 0;
+			if (rc == SIGVTALRM && !attempt && confirmed < C04_MAX_CONFIRMED) {
+				/* two ticks can be an accounting artefact on a loaded machine: run the case again with a long bound */
+				attempt = 1;
+				goto again;
+			}
 			if (rc >= 1000) fprintf(res, "%d !X%d", idx, rc - 1000);
+			else if (rc == SIGVTALRM && !attempt) fprintf(res, "%d !U", idx);
 			else fprintf(res, "%d !S%d", idx, rc);
-			if (rc == SIGVTALRM) timeouts++;
+			if (rc == SIGVTALRM) { timeouts++; confirmed += attempt; }
 		}
 		pend = __fpending(stdout);
 		if (pend) { fflush(stdout); fprintf(res, " O%lu", (unsigned long)pend); }
 		fputc('\n', res);
+		if (rc == SIGSEGV || rc == SIGBUS || rc == SIGILL || rc == SIGABRT) {
+			/* a memory fault inside the call: this process's memory is not trusted any more; the parent
+			   resumes with the next case in a fresh child */
+			c04_sh->idx = idx + 1;
+			c04_sh->faults++;
+			fflush(res);
+			_exit(96);
+		}
 	}
 }
 
 int main(int argc, char **argv)
 {
 	static const int sigs[] = {SIGFPE, SIGSEGV, SIGBUS, SIGILL, SIGABRT, SIGVTALRM};
-	const size_t n = sizeof(c04_table) / sizeof(c04_table[0]);
-	struct sigaction sa;
-	volatile size_t *progress;
-	unsigned int s;
-	size_t k = 0, j;
+	/* static: a call that writes above its frame must not be able to rewind the loop */
+	static const size_t n = sizeof(c04_table) / sizeof(c04_table[0]);
+	static struct sigaction sa;
+	static unsigned int s;
+	static size_t j;
 
 	prctl(PR_SET_PDEATHSIG, SIGKILL);
 	if (argc < 2 || !(c04_res = fopen(argv[1], "a"))) return 98;
-	progress = mmap(NULL, sizeof(*progress), PROT_READ | PROT_WRITE, MAP_SHARED | MAP_ANONYMOUS, -1, 0);
-	if (progress == MAP_FAILED) return 95;
+	c04_sh = mmap(NULL, sizeof(*c04_sh), PROT_READ | PROT_WRITE, MAP_SHARED | MAP_ANONYMOUS, -1, 0);
+	if (c04_sh == MAP_FAILED) return 95;
 	memset(&sa, 0, sizeof(sa));
 	sa.sa_handler = c04_sig;
 	sa.sa_flags = SA_NODEFER;
 	sigemptyset(&sa.sa_mask);
+	c04_sh->func = 0;
+	c04_sh->idx = 0;
+	c04_sh->faults = 0;
 
-	/* the functions run in a child; when a call damages its caller's memory and the child dies, only the remaining
-	   cases of that function are lost: a new child resumes with the next function */
-	while (k < n) {
+	/* The functions run in a child process.
+	   - a memory fault inside a protected call ends the child (exit 96); a fresh child resumes with the next case;
+	   - a fault outside a protected call (the call returned but damaged memory) or an abrupt death is charged to the
+	     function being run only if that function started in a fresh child; otherwise the function is run again from
+	     its first case in a fresh child ("R" line: earlier results of it are discarded) so that damage left behind by a
+	     predecessor is never charged to an innocent function. */
+	while (c04_sh->func < n) {
 		pid_t pid;
 		int st = 0;
 		fflush(c04_res);
 		fflush(stdout);
-		*progress = k;
+		c04_sh->first = c04_sh->func;
 		pid = fork();
 		if (pid < 0) return 96;
 		if (pid == 0) {
-			prctl(PR_SET_PDEATHSIG, SIGKILL);
 			struct itimerval tv;
 			static char obuf[1 << 16];
+			prctl(PR_SET_PDEATHSIG, SIGKILL);
 			setvbuf(stdout, obuf, _IOFBF, sizeof(obuf));
 			for (s = 0; s < sizeof(sigs) / sizeof(sigs[0]); s++) sigaction(sigs[s], &sa, NULL);
 			memset(&tv, 0, sizeof(tv));
 			tv.it_value.tv_usec = tv.it_interval.tv_usec = C04_CPU_USEC;
 			setitimer(ITIMER_VIRTUAL, &tv, NULL);
-			for (j = k; j < n; j++) {
-				*progress = j;
+			for (j = c04_sh->func; j < n; j++) {
+				if (j != c04_sh->func) { c04_sh->func = j; c04_sh->idx = 0; c04_sh->faults = 0; }
 				fprintf(c04_res, "F %d\n", c04_table[j].id);
-				c04_run(&c04_table[j]);
+				c04_run(&c04_table[j], c04_sh->idx);
 				fflush(c04_res);     /* a later abrupt death must not lose this function's results */
 			}
+			c04_sh->func = n;
 			fflush(c04_res);
 			fflush(stdout);
 			_exit(0);
 		}
 		while (waitpid(pid, &st, 0) < 0) ;
 		if (WIFEXITED(st) && WEXITSTATUS(st) == 0) break;
+		if (WIFEXITED(st) && WEXITSTATUS(st) == 96) continue;
+		if (c04_sh->func >= n) break;
+		if (c04_sh->func != c04_sh->first) {
+			fprintf(c04_res, "\nR %d\n", c04_table[c04_sh->func].id);
+			c04_sh->idx = 0;
+			c04_sh->faults = 0;
+			continue;
+		}
 		if (!(WIFEXITED(st) && WEXITSTATUS(st) == 97))
-			fprintf(c04_res, "\nD %d %d\n", c04_table[*progress].id, WIFSIGNALED(st) ? WTERMSIG(st) : 1000 + WEXITSTATUS(st));
-		k = *progress + 1;
+			fprintf(c04_res, "\nD %d %d\n", c04_table[c04_sh->func].id,
+				WIFSIGNALED(st) ? WTERMSIG(st) : 1000 + WEXITSTATUS(st));
+		c04_sh->func++;
+		c04_sh->idx = 0;
+		c04_sh->faults = 0;
 	}
 	fprintf(c04_res, "END\n");
 	fclose(c04_res);
@@ -676,7 +724,8 @@ def gen_function(k, f, ctext):
 
 def gen_file(shadow, items):
     """items: list of (k, f, ctext, skip or None). Returns C source."""
-    src = [include_block(shadow), "#define C04_CPU_USEC %d\n#define C04_MAX_TIMEOUTS %d" % (CASE_CPU_MS * 1000, MAX_TIMEOUTS), DRIVER_HEAD]
+    src = [include_block(shadow), "#define C04_CPU_USEC %d\n#define C04_MAX_TIMEOUTS %d\n#define C04_MAX_FAULTS %d\n#define C04_CONFIRM_TICKS %d\n"
+           "#define C04_MAX_CONFIRMED %d" % (TICK_MS * 1000, MAX_TIMEOUTS, MAX_FAULTS, CONFIRM_TICKS, MAX_CONFIRMED), DRIVER_HEAD]
     tables = {}
     table_src = []
 
@@ -816,6 +865,7 @@ def run_exe(exe, workdir):
     out = {}
     cur = None
     done = False
+    reruns = [0, 0]        # functions run again in a fresh process, stdout bytes of their discarded first attempts
     if os.path.exists(res):
         with open(res, errors="replace") as fd:
             for line in fd:
@@ -829,6 +879,12 @@ def run_exe(exe, workdir):
                     if parts[0] == "END":
                         done = True
                         continue
+                    if parts[0] == "R":
+                        # the function is run again from its first case in a fresh process: forget the first attempt
+                        reruns[1] += sum(c[2] for c in out.get(int(parts[1]), {}).values())
+                        cur = out[int(parts[1])] = {}
+                        reruns[0] += 1
+                        continue
                     if parts[0] == "D":
                         out.setdefault(int(parts[1]), {})[-1] = ("died", int(parts[2]), 0)
                         continue
@@ -839,6 +895,8 @@ def run_exe(exe, workdir):
                         cur[idx] = ("v", int(r[1:], 16), so_bytes)
                     elif r[1] == "N":
                         cur[idx] = ("notrun", 0, so_bytes)
+                    elif r[1] == "U":
+                        cur[idx] = ("unconfirmed", 0, so_bytes)
                     elif r[1] == "C":
                         prev = cur.get(idx)
                         cur[idx] = ("corrupt", int(r[2:]), prev[2] if prev else 0)
@@ -850,6 +908,7 @@ def run_exe(exe, workdir):
                 except (ValueError, IndexError, TypeError):
                     if cur is not None:
                         cur[-1] = ("died", -1, 0)      # torn line: the child died while writing
+    out[None] = tuple(reruns)
     return out, os.path.getsize(so), done and p.returncode == 0, p.returncode
 
 
@@ -913,7 +972,7 @@ def evaluate(funcs, shadow, rt_objs, workdir, name):
     Returns dict(violations=[(record, inner_key)], counters...)."""
     import miasm.expression.expression as E
     stats = {"functions": 0, "evaluations": 0, "nontrivial": 0, "undefined_skipped": 0, "not_accepted": {}, "raises": {},
-             "per_op": {}, "compile_rejected": 0, "not_run_after_timeouts": 0, "not_run_after_crash": 0, "signals": 0, "exits": 0, "stdout_cases": 0, "outcomes": set(),
+             "per_op": {}, "compile_rejected": 0, "not_run_after_faults_or_timeouts": 0, "not_run_after_crash": 0, "isolated_reruns": 0, "suspected_timeouts_not_confirmed": 0, "signals": 0, "exits": 0, "stdout_cases": 0, "outcomes": set(),
              "probe": {}, "faulty": [], "samples": []}
     vio = []
     items = []
@@ -978,9 +1037,11 @@ def evaluate(funcs, shadow, rt_objs, workdir, name):
     results = {}
     for exe in exes:
         out, so_size, ok, rc = run_exe(exe, workdir)
+        nrerun, discarded = out.pop(None)
+        stats["isolated_reruns"] += nrerun
         results.update(out)
         flagged = sum(c[2] for r in out.values() for c in r.values())
-        if so_size != flagged or not ok:
+        if so_size != flagged + discarded or not ok:
             # the driver died or wrote to stdout outside a case: harness-level failure, never silent
             raise RuntimeError("harness %s: rc=%s completed=%s stdout=%d bytes, %d attributed to cases" % (exe, rc, ok, so_size, flagged))
 
@@ -1014,8 +1075,11 @@ def evaluate(funcs, shadow, rt_objs, workdir, name):
                 died_seen = True
                 got = ("died", res[-1][1], 0)
             kind, val, so_bytes = got
+            if kind == "unconfirmed":
+                stats["suspected_timeouts_not_confirmed"] += 1
+                continue
             if kind == "notrun":
-                stats["not_run_after_timeouts"] += 1
+                stats["not_run_after_faults_or_timeouts"] += 1
                 continue
             stats["evaluations"] += 1
             po[1] += 1
@@ -1096,8 +1160,9 @@ def run(ctx):
     shards = [(funcs[i::n], shadow, rt, "s%d" % i, opt) for i in range(n)]
     res = ctx.pmap(_worker, shards)
 
-    tot = {"functions": 0, "evaluations": 0, "nontrivial": 0, "undefined_skipped": 0, "compile_rejected": 0, "not_run_after_timeouts": 0, "not_run_after_crash": 0, "signals": 0,
-           "exits": 0, "stdout_cases": 0, "not_run_after_timeouts": 0, "not_run_after_crash": 0}
+    tot = {"functions": 0, "evaluations": 0, "nontrivial": 0, "undefined_skipped": 0, "compile_rejected": 0, "not_run_after_faults_or_timeouts": 0, "not_run_after_crash": 0, "isolated_reruns": 0, "suspected_timeouts_not_confirmed": 0, "signals": 0,
+           "exits": 0, "stdout_cases": 0, "not_run_after_faults_or_timeouts": 0, "not_run_after_crash": 0, "isolated_reruns": 0,
+           "suspected_timeouts_not_confirmed": 0}
     per_op = {}
     not_acc = {}
     raises = {}
